@@ -47,7 +47,7 @@ fn arith_case(base: u64) -> impl Strategy<Value = ArithCase> {
         precision(),
         (any::<u16>(), 0u8..9, any::<u64>(), any::<bool>(), prop_oneof![4 => -6i64..=6, 2 => -40i64..=40, 1 => -400i64..=400]),
         (any::<u16>(), 0u8..9, any::<u64>(), any::<bool>()),
-        0u8..12, // relation
+        0u8..14, // relation
         any::<u16>(), // gap selector
         0u8..7,
     )
@@ -85,6 +85,26 @@ fn arith_case(base: u64) -> impl Strategy<Value = ArithCase> {
                     fl_from(&BigInt::from(if nb { -(d as i64) } else { d as i64 }), (sb % 5) as i64 - 2)
                 }
                 4 => a.clone(),
+                // b is (almost) exactly half a unit in the last place of the sum: its leading digit sits
+                // at the first discarded position, the digits below are zero up to a final +-j
+                // (a tie, or just above / below it however long b is)
+                12 | 13 if !a.sig.is_zero() => {
+                    let da = a.digits(base) as i64;
+                    let ks = [1u64, 2, (pu + 1) / 2, pu, pu.min(25 + sb % 8), 1 + sb % pu, pu.saturating_sub(1).max(1)];
+                    let k = pick(&ks, kb).max(1).min(pu);
+                    let half = if base % 2 == 0 { BigUint::from(base / 2) * pw(k - 1) } else { (pw(k) - 1u8) / 2u8 };
+                    let js: [i64; 7] = [0, 1, -1, 1, 2, -2, 0];
+                    let j = pick(&js, (sb >> 8) as u16);
+                    let mut m = if j >= 0 { &half + BigUint::from(j as u64) } else if half > BigUint::from((-j) as u64) { &half - BigUint::from((-j) as u64) } else { half.clone() };
+                    if m.is_zero() || m >= pw(k) {
+                        m = half.clone().max(BigUint::one());
+                    }
+                    let ds: [i64; 6] = [0, 0, 0, -1, 1, 0];
+                    let delta = pick(&ds, (sb >> 16) as u16);
+                    let eb = a.exp + da - pu as i64 - k as i64 + delta;
+                    let bm = BigInt::from(m);
+                    fl_from(&if nb { -bm } else { bm }, eb)
+                }
                 // independent with an exponent gap class relative to the precision
                 _ => {
                     let gaps: [i64; 14] = [0, 1, 2, (pu as i64) / 2, pu as i64 - 1, pu as i64, pu as i64 + 1, pu as i64 + 2, 2 * pu as i64, 2 * pu as i64 + 1, 3 * pu as i64 + 5, 10 * pu as i64, 30, 1];
